@@ -127,6 +127,27 @@ check("C08", "model_checking",
       "TLA+ spec model-checked by TLC + spec-as-oracle shard layout + simulated-rank replay (bitwise) + TLC validation of collective logs",
       "DESIGN.md §5 C08")
 
+_MAT_NOTE = ("Restricted claim (DESIGN §9): TLC decides dispatch / rejection tables, the regularised spectrum every path inverts and the facts that "
+             "follow by order reasoning, and the solvers' control state machines; floating-point accuracy is MEASURED at TLC-supplied case classes "
+             "against Q diag(Reg^(-1/r)) Q^T with a bound whose constant was frozen from the unchanged tree.")
+check("C10", "exploration",
+      "spec/MatrixFn + MatrixSolvers: dispatch tables, transfer functions over exact rationals (TransferAgreement, StabilityIsIdentity, "
+      "OrderPreserved) and solver state machines (FlagSound, GuardSound, Tf32Restored, termination) checked by TLC; for every sampled case class "
+      "TLC returns the dispatch outcome and the regularised spectrum, the harness measures the real routine against it; solver return records "
+      "are validated by TLC.",
+      _MAT_NOTE, "TLA+ spec (dispatch, transfer functions, solver machines) checked by TLC + spec-as-oracle numeric exploration + TLC validation of solver records",
+      "DESIGN.md §5 C10, §9")
+check("C11", "exploration",
+      "EigenPositivity / upper bound by order reasoning on the spec's transfer functions for spectra with negative, zero and repeated "
+      "eigenvalues (TLC); concretised degenerate matrices: finite, symmetric, positive definite, lambda_max <= eps^(-1/r), commutation, "
+      "orthogonal equivariance, value equal to the spec's regularised spectrum; shape rejection table.",
+      _MAT_NOTE, "TLA+ transfer-function facts checked by TLC + spec-as-oracle numeric exploration on degenerate inputs", "DESIGN.md §5 C11, §9")
+check("C12", "exploration",
+      "Dispatch of matrix_eigenvectors as a TLA+ table evaluated by TLC and compared with the real routine on every descriptor; numeric "
+      "exploration of orthonormality, diagonalisation, ordering, agreement with a float64 reference orthogonal iteration and the fixed-point "
+      "property at sampled spectra / estimates / iteration budgets.",
+      _MAT_NOTE, "TLA+ dispatch table checked by TLC + numeric exploration against float64 references", "DESIGN.md §5 C12, §9")
+
 ALL = [f"C{i:02d}" for i in range(1, 19)]
 
 
